@@ -248,7 +248,17 @@ pub fn lookalike_pairs(rng: &mut Rng) -> Vec<(Call, Call)> {
 pub fn pool(rng: &mut Rng) -> Vec<Call> {
     let cfg = Cfg { alphabet: 3, mixed_case: true, long_names: false, ..Default::default() };
     let zone = Name(vec![gen_label(rng, &cfg), b"example".to_vec(), b"com".to_vec()]);
-    let hosts: Vec<Name> = (0..5).map(|_| Name(vec![gen_label(rng, &cfg)]).concat(&zone)).collect();
+    let mut hosts: Vec<Name> = (0..5).map(|_| Name(vec![gen_label(rng, &cfg)]).concat(&zone)).collect();
+    // two names that differ only in bit 5 of bytes that are not letters (@ ` [ { ] } ^ ~): equal only for a
+    // comparison that folds too much, whoever builds its folding table first
+    if rng.chance(1, 2) {
+        let a: Vec<u8> = (0..rng.range(2, 6)).map(|_| *rng.pick(b"@[]^ab1")).collect();
+        let b: Vec<u8> = a.iter().map(|&c| if matches!(c, b'@' | b'[' | b']' | b'^') { c | 0x20 } else { c }).collect();
+        if a != b {
+            hosts.push(Name(vec![a]).concat(&zone));
+            hosts.push(Name(vec![b]).concat(&zone));
+        }
+    }
     let mut calls = vec![];
     let n = rng.range(6, 10);
     for i in 0..n {
